@@ -80,6 +80,13 @@ CHECKS.update({
         rule="both roles; every outbound history pattern of up to N messages after the logon message (each either a Heartbeat reply or an application message); then a ResendRequest for every (b,e) in [0,n+2]^2, and for short histories every ordered pair of two such requests; plus every (stored incoming counter in 0..4, Logon MsgSeqNum in 1..6) for gap detection. Oracle: retransmissions are byte-identical recorded first transmissions, inside the range, ascending, complete when 1<=b<=e<=n or e=0; ResendRequest at logon iff a gap exists and BeginSeqNo = first missing number. States = distinct (role, pattern, requests) configurations reached; transitions = scheduler steps executed.",
         assumptions=SESS_ASSUME,
     ),
+    "C13": dict(
+        engine="sess", level="fault_enumeration", args=[],
+        deadline=dict(quick=170, thorough=1500),
+        rule="H2 full stack on the scripted socket. role {initiator, acceptor} x buffer {0,1,10} x life-cycle point {connected without logon, logged on idle, two inbound messages in flight, two application sends in flight with the peer not reading, logout sent} x cause {peer EOF, peer reset, read error mid-message, write error, write blocked past the deadline, Initiator.Close / Acceptor.Close, handler.Stop, Session.Stop} x POSITION: the cause is fired by an urgent task at scheduler step k after the life-cycle point for every k (stride 2 in the quick tier beyond 120) up to the length of the undisturbed run (cap 400), so every relative timing of cause and pending hand-offs is enumerated; plus delay-bounded (1) schedule deviations on selected cells. After the cause 60 virtual seconds pass, a late Send is issued, 30 more seconds pass, the acceptor is closed. Oracle: serving call returned, socket closed, disconnect/stopped notification for peer-caused endings, the late Send returned, no task spawned by library code is left. A distinct non-trivial case = distinct (role, buffer, point, cause, observed outcome vector).",
+        assumptions=SESS_ASSUME + ["heartbeat interval 1 s, write deadline 5 s, close timeout 1 s; settling time 60 + 30 (+10) virtual seconds",
+                                   "fault positions are enumerated at scheduler-step granularity of the default schedule; other schedules only through the delay-bounded phase"],
+    ),
     "C14": dict(
         engine="sess", level="model_checking", args=[],
         deadline=dict(quick=110, thorough=1500),
@@ -110,6 +117,19 @@ CHECKS.update({
         rule="both roles x heartbeat interval N (quick {1,20,40}, thorough {1,5,20,39,40,60}, so that max(1,N/20) takes 1,1,1,1,2,3) x the same timed grid of placements as C08 (total silence is the empty placement; arrivals at deadline -1 ms / exactly / +1 ms for the first and second deadline; an answer at every grid instant of the second period; steady traffic). Oracle (window rule, T = N + max(1,N/20), L = latest of logon / last arrival / previous TestRequest): TestRequest only in [L+T, L+T+T/10), disconnect only while a TestRequest is outstanding and in the same window after it, nothing overdue at any event or at the horizon, any arrival restarts the period; disconnect event raised once and the handler context cancelled at the same instant. An arrival that shares its virtual instant with an expiry may be ordered either way.",
         assumptions=SESS_ASSUME + ["closing of the socket after the handler stops is checked on the full stack by C13's scenarios (cause: silent peer)"],
     ),
+    "C04": dict(
+        engine="sess", level="model_checking", args=[],
+        deadline=dict(quick=140, thorough=1500),
+        rule="H2 (real Conn + Initiator/Acceptor + DefaultHandler on a scripted net.Conn/Listener). (a) default schedule: every sequence of 1-3 messages from a 5-message pool (values ending in '10=abc', tags ending in 10 with 3-byte values, a value starting with '10=', a 260-byte value) x {one byte per read, one message per read, one read, every single cut point (buffer 1; thorough: all buffers), every pair of cut points for selected sequences} x buffer sizes {0,1,10} x both roles; two simultaneous connections on one acceptor with different sequences. (b) schedule exploration with delay bounding (quick 1, thorough 2) of representative partitions (no cut, a cut inside a value before '10=', cuts inside the CheckSum field) and of two connections. (c) outbound: two tasks calling Send twice each and one calling SendRaw twice, all schedules within the bound. Oracle: per connection the handler callbacks receive exactly the sent messages, once, byte-identical, in order, never overlapping, never another connection's; the written stream tokenises into whole messages, each exactly once, Send messages in hand-off order.",
+        assumptions=SESS_ASSUME + ["partition enumeration uses the default schedule; schedule exploration is limited to the representative partitions listed"],
+    ),
+    "C05": dict(
+        engine="sess", level="model_checking", args=[], min_outcomes=10,
+        deadline=dict(quick=140, thorough=1500),
+        rule="after a deterministic logon (set-up region): G sender tasks x M application messages with (G,M) in {(2,1),(2,2),(3,1)}, out-buffer sizes {0,1,10}, both roles, counter store / message store / an outgoing handler yielding inside the call; variants: an inbound TestRequest answered concurrently on the dispatch task, a damaged inbound message rejected concurrently, the heartbeat timer expiring among the sends (early-timer deviation, loose virtual time), a second session continuing on the same counter store. All schedules within the preemption bound (quick 1, thorough 2; switches forced by blocking are free and all explored). Oracle on the messages handed to the connection writer: MsgSeqNum = first..first+n-1 in wire order, comp ids, SendingTime in FIX format, within the send window and non-decreasing, every application message exactly once. States = distinct scheduler-visible states (task program points x object ids x timers); a distinct non-trivial case = distinct (scenario, wire-order assignment of senders to numbers, deviation cost).",
+        assumptions=SESS_ASSUME + ["H1 level (handler + session + store): the writer loop is the harness task draining Outgoing(); the H2 writer path is covered by C04's outbound scenario",
+                                   "interleaving at synchronisation-operation granularity: unsynchronised accesses between those points are C20's subject"],
+    ),
     "C16": dict(
         engine="sess", level="model_checking", args=[],
         deadline=dict(quick=110, thorough=1500),
@@ -121,7 +141,7 @@ CHECKS.update({
 ENGINES = [
     {"name": "codecmc", "path": "harness/codec", "serves_properties": ["C01", "C02", "C03", "C11", "C17", "C18"],
      "kind_free_text": "E1: bounded-exhaustive enumeration of the codec input space (templates x populations x values x damage x byte strings) on the real fix / fix/encoding packages against an independent reference codec"},
-    {"name": "vsched", "path": "engine/vsched + engine/rewrite + harness/sess", "serves_properties": ["C06", "C07", "C08", "C09", "C10", "C14", "C15", "C16", "C19"],
+    {"name": "vsched", "path": "engine/vsched + engine/rewrite + harness/sess", "serves_properties": ["C04", "C05", "C13", "C06", "C07", "C08", "C09", "C10", "C14", "C15", "C16", "C19"],
      "kind_free_text": "E2: the real transport/session code, source-rewritten so that goroutines, channels, select, sync, context, time and errgroup run on a controlled scheduler with virtual time; stateless deviation-bounded DFS over schedules and exhaustive enumeration of event histories"},
 ]
 
@@ -142,9 +162,12 @@ LEVEL_TEXT.update({
     "C16": "Explicit-state exploration of the real session over histories mixing valid and damaged administrative messages in every session state.",
     "C15": "Exhaustive enumeration of logout/stop scenarios (role x close timeout x traffic prefix x ending x answer timing) on the real session under strict virtual time, so that cancellation instants are compared exactly.",
     "C19": "Exhaustive enumeration of handler registration orders, accept/refuse vectors and store-failure positions on the real handler+session, with an instrumented store and call log as oracle.",
+    "C04": "Exhaustive enumeration of read partitions of the inbound stream on the real connection stack over a scripted socket, plus stateless (delay-bounded) schedule exploration of representative partitions, two simultaneous connections and concurrent outbound senders.",
+    "C05": "Stateless model checking of the real send path: all interleavings of the sender tasks, the dispatch task and the timer task at synchronisation-operation granularity within a preemption bound, iterated 0,1,(2), every execution run to completion and its wire image checked.",
     "C08": "Exhaustive timed-grid exploration of the real session and its polling timers under strict virtual time: every placement of up to k actions on a grid that contains all timer ticks, the deadlines and their +-1 ms neighbours, with the exact timeline of outbound messages as observation.",
     "C09": "Exhaustive timed-grid exploration of the real session and its polling timers under strict virtual time with a window-rule oracle for TestRequest / disconnect, ties resolved either way.",
     "C10": "Exhaustive enumeration of (outbound history, resend range[, second range]) and of (stored counter, logon sequence number) pairs on the real session and store, every case executed to quiescence under the controlled scheduler and compared with the recorded first transmissions.",
+    "C13": "Exhaustive fault enumeration on the real full stack over a scripted socket: every termination cause at every scheduler-step position after every life-cycle point, for both roles and three buffer sizes, each run to quiescence under virtual time with a leak / liveness oracle; plus delay-bounded schedule exploration of selected cells.",
     "C14": "Explicit-state exploration of the real logged-on session over all inbound histories up to a depth bound with a collision-forcing TestReqID alphabet, including queued back-to-back deliveries.",
 })
 
@@ -154,9 +177,12 @@ TECHNIQUE = {
     "C16": "explicit-state model checking of the implementation: exhaustive history enumeration over valid + damaged admin messages in every state",
     "C15": "explicit-state model checking of the implementation under virtual time: exhaustive enumeration of logout/stop scenarios and answer timings",
     "C19": "explicit-state model checking of the implementation: exhaustive enumeration of handler configurations and injected store faults",
+    "C04": "exhaustive environment-answer enumeration (read partitions, <= 2 cut points) + delay-bounded stateless schedule exploration of the real connection stack on a scripted socket",
+    "C05": "stateless model checking of the implementation: deviation(preemption)-bounded exhaustive schedule exploration under a controlled scheduler",
     "C08": "explicit-state model checking of the implementation under virtual time: exhaustive placement of timed events on a tick-aligned grid (discrete-event semantics)",
     "C09": "explicit-state model checking of the implementation under virtual time: exhaustive placement of timed arrivals on a tick-aligned grid, window-rule oracle",
     "C10": "explicit-state model checking of the implementation: exhaustive enumeration of outbound histories x resend ranges under a controlled scheduler, reference = recorded first transmissions",
+    "C13": "exhaustive fault-position enumeration (cause x life-cycle point x scheduler step) on the implementation under a controlled scheduler and virtual time, plus delay-bounded schedule exploration",
     "C14": "explicit-state model checking of the implementation: exhaustive logged-on history enumeration (depth-bounded) with TestReqID alphabet",
     "C01": "bounded-exhaustive input enumeration on the real code vs reference oracle (small-scope model checking of a sequential function)",
     "C17": "bounded-exhaustive input enumeration on the real code vs reference field-list model",
